@@ -1366,7 +1366,10 @@ class BaseGaussianState(BaseState):
                 cutoff=cutoff,
                 check_purity=False,
             )
-            rho = np.outer(psi, psi.conj())
+            # same index convention as the mixed-state branch: rho_{ij,kl,...}, two indices per mode
+            num = len(modes)
+            rho = np.multiply.outer(psi, psi.conj())
+            rho = np.transpose(rho, [ax for pair in zip(range(num), range(num, 2 * num)) for ax in pair])
             return rho
 
         return twq.density_matrix(mu, cov, hbar=self._hbar, normalize=True, cutoff=cutoff)
